@@ -101,6 +101,15 @@ def run_case(c, rng):
             c.count('isolation_schedule_cases')
         sample = {'spec': spec}
         wn = gnet.build(spec, reset=False)     # straight from the add_* API
+        if side.random() < 0.35:
+            # report options as name lists in no particular order (part of the definition; the INP writer reads them)
+            nn_ = [x['name'] for x in spec['junctions'] + spec['tanks']]
+            ll_ = [x['name'] for x in spec['pipes'] + spec['pumps']]
+            side.shuffle(nn_)
+            side.shuffle(ll_)
+            wn.options.report.nodes = nn_[:side.randint(2, max(2, len(nn_)))]
+            wn.options.report.links = ll_[:side.randint(2, max(2, len(ll_)))]
+            c.count('report_name_list_cases')
         nondef = any(p['status'] == 'CLOSED' for p in spec['pumps']) or any(v['status'] != 'ACTIVE' for v in spec['valves'])
         if nondef:
             c.count('nondefault_initial_status_cases')
